@@ -76,6 +76,11 @@ def tasks(tier, seed):
         out.append(('bdiv', p, thorough))
         out.append(('bsqrt', p, thorough))
         out.append(('unary', p, thorough))
+    # both sides of the integer-square-root algorithm switches (2^50, 2^600, 2^800 bit arguments)
+    for p in ([22, 23, 25, 26, 148, 149, 151, 298, 299, 300, 301, 398, 399, 400, 401, 402, 1000] + ([2000, 3000] if thorough else [])):
+        out.append(('bsqrt', p, thorough))
+        if p in (25, 300, 400, 1000):
+            out.append(('bdiv', p, thorough))
     for p in ([2, 3, 5, 10, 53] + ([24, 113] if thorough else [])):
         out.append(('ctx', p, thorough))
     for p in ([3, 5, 8] + ([2, 4, 12] if thorough else [])):
